@@ -3,6 +3,7 @@
 package tars
 
 import (
+	"fmt"
 	"sync/atomic"
 
 	"github.com/TarsCloud/TarsGo/tars/util/endpoint"
@@ -104,6 +105,17 @@ func (s *ServantProxy) VerifCheckStatus() {
 	if m := s.verifManager(); m != nil && m.registrar != nil {
 		m.checkStatus()
 	}
+}
+
+// VerifSelect runs the endpoint manager's selection for a plain call (what every call does before it
+// is sent) and returns the selected endpoint's "host:port", or "" when none was selected.
+func (s *ServantProxy) VerifSelect() string {
+	if m := s.verifManager(); m != nil {
+		if adp, _ := m.SelectAdapterProxy(&Message{}); adp != nil && adp.point != nil {
+			return fmt.Sprintf("%s:%d", adp.point.Host, adp.point.Port)
+		}
+	}
+	return ""
 }
 
 // VerifRefresh runs one synchronous endpoint refresh from the registrar.
